@@ -138,6 +138,35 @@ pub fn first_mismatch(lines: &[String], imp: &[String], model: &[String]) -> Opt
 /// the first disagreement on an *outcome* (ok/err status, decaps result, panic), if any; such a
 /// disagreement is a concrete input on which the implementation and the proved model differ in
 /// what the properties talk about, whereas a state-only difference (a dump) is not yet one
+/// does `got` satisfy the expectation text (alternatives separated by `||`, trailing `*` = prefix)?
+pub fn satisfies(expect: &str, got: &str) -> bool {
+    expect.split("||").any(|alt| {
+        let alt = normalize(alt.trim());
+        match alt.strip_suffix('*') {
+            Some(pre) => normalize(got).starts_with(pre),
+            None => normalize(got) == alt,
+        }
+    })
+}
+
+/// Where a line carries a specification expectation that the implementation meets and the model does not (the model
+/// is faithful to a recorded defect of the pinned tree, e.g. D9 / D12, and the implementation has since been repaired),
+/// the specification wins: the line is not a disagreement. Returns the model outputs with those lines aligned, and
+/// how many were aligned.
+pub fn spec_over_model(lines: &[String], imp: &[String], model: &[String], exp: &std::collections::HashMap<String, String>) -> (Vec<String>, usize) {
+    let mut out = model.to_vec();
+    let mut n = 0;
+    for (i, l) in lines.iter().enumerate() {
+        if let (Some(e), Some(a), Some(b)) = (exp.get(l), imp.get(i), model.get(i)) {
+            if normalize(a) != normalize(b) && satisfies(e, a) && !satisfies(e, b) {
+                out[i] = a.clone();
+                n += 1;
+            }
+        }
+    }
+    (out, n)
+}
+
 pub fn first_behaviour_mismatch(lines: &[String], imp: &[String], model: &[String]) -> Option<(usize, String)> {
     for i in 0..lines.len() {
         let a = imp.get(i).map(|s| s.as_str()).unwrap_or("<missing>");
@@ -154,12 +183,13 @@ pub fn first_behaviour_mismatch(lines: &[String], imp: &[String], model: &[Strin
 }
 
 /// delta debugging on the op list (the first two lines — reset, setup — are kept)
-pub fn shrink(driver: &str, lines: &[String], budget: usize, behaviour: bool) -> Vec<String> {
+pub fn shrink(driver: &str, lines: &[String], budget: usize, behaviour: bool, exp: &std::collections::HashMap<String, String>) -> Vec<String> {
     let keep = 2.min(lines.len());
     let mut cur: Vec<String> = lines.to_vec();
     let mut tries = 0;
     let pick = |ls: &[String], i: &[String], m: &[String]| -> Option<(usize, String)> {
-        if behaviour { first_behaviour_mismatch(ls, i, m) } else { first_mismatch(ls, i, m) }
+        let (m, _) = spec_over_model(ls, i, m, exp);
+        if behaviour { first_behaviour_mismatch(ls, i, &m) } else { first_mismatch(ls, i, &m) }
     };
     let fails = |ls: &[String]| -> bool {
         let (i, m) = run_both(driver, ls);
@@ -314,6 +344,8 @@ pub struct Stats {
     pub status_hist: BTreeMap<String, usize>,
     pub err_kind_hist: BTreeMap<String, usize>,
     pub soft_kind_mismatch: usize,
+    /// lines where the implementation meets the specification expectation and the model (faithful to a recorded defect) does not
+    pub spec_over_model: usize,
     pub distinct: std::collections::HashSet<u64>,
     pub distinct_lines: std::collections::HashSet<u64>,
     pub matrix_cells: usize,
@@ -419,13 +451,7 @@ pub fn run_cases(driver: &str, cases: Vec<Case>, workers: usize, max_shrink: usi
             oracle_checked += 1;
             let got = imp.get(*k).cloned().unwrap_or_default();
             // alternatives are separated by `||`; a trailing `*` makes an alternative a prefix
-            let ok = ex.out.split("||").any(|alt| {
-                let alt = normalize(alt.trim());
-                match alt.strip_suffix('*') {
-                    Some(pre) => normalize(&got).starts_with(pre),
-                    None => normalize(&got) == alt,
-                }
-            });
+            let ok = satisfies(&ex.out, &got);
             if !ok && oracle_failures.len() < 50 {
                 let mut tags = ex.tags.clone();
                 for tok in got.split(' ') {
@@ -441,6 +467,9 @@ pub fn run_cases(driver: &str, cases: Vec<Case>, workers: usize, max_shrink: usi
                 }));
             }
         }
+        let exp: std::collections::HashMap<String, String> = c.expect.iter().filter_map(|(k, e)| c.lines.get(*k).map(|l| (l.clone(), e.out.clone()))).collect();
+        let (model, aligned) = spec_over_model(&c.lines, imp, &model, &exp);
+        stats.spec_over_model += aligned;
         let beh = first_behaviour_mismatch(&c.lines, imp, &model);
         if let Some((k, kind)) = beh.clone().or_else(|| first_mismatch(&c.lines, imp, &model)) {
             let mut mm = Mismatch {
@@ -454,8 +483,9 @@ pub fn run_cases(driver: &str, cases: Vec<Case>, workers: usize, max_shrink: usi
                 shrunk: false,
             };
             if mismatches.len() < max_shrink && c.lines.first().map(|s| s == "reset").unwrap_or(false) {
-                let small = shrink(driver, &c.lines, 120, beh.is_some());
+                let small = shrink(driver, &c.lines, 120, beh.is_some(), &exp);
                 let (i, m) = run_both(driver, &small);
+                let (m, _) = spec_over_model(&small, &i, &m, &exp);
                 let again = if beh.is_some() { first_behaviour_mismatch(&small, &i, &m) } else { first_mismatch(&small, &i, &m) };
                 if let Some((k2, kind2)) = again {
                     mm.lines = small.clone();
@@ -489,6 +519,7 @@ pub fn outcome_json(prop: &str, tier: &str, seed: u64, o: &Outcome, mut extra: s
         "status_hist": o.stats.status_hist,
         "err_kind_hist": o.stats.err_kind_hist,
         "soft_kind_mismatch": o.stats.soft_kind_mismatch,
+        "spec_over_model": o.stats.spec_over_model,
         "matrix_cells": o.stats.matrix_cells,
         "matrix_open": o.stats.matrix_open,
         "samples": o.samples,
